@@ -74,6 +74,80 @@ def lua_view(args):
     return out
 
 
+# ---- the frame as a module really sees it: the repository's own sandbox and frame code, with a stand-in for the one
+# absent Scribunto library (ustring); ASCII argument lists only (the stand-in is byte based)
+from bounded.c06_lua import USTRING_STUB
+_orig_loader = luaexec.lua_loader
+
+
+def _loader(c_, modname):
+    r_ = _orig_loader(c_, modname)
+    if r_ is None and modname == "ustring:ustring":
+        return USTRING_STUB
+    return r_
+
+
+ARGDUMP = r"""
+local p = {}
+local function hex(s)
+    return (s:gsub(".", function(c) return string.format("%02x", c:byte()) end))
+end
+function p.dump(frame)
+    local out = {}
+    for k, v in pairs(frame.args) do
+        out[#out + 1] = type(k):sub(1, 1) .. hex(tostring(k)) .. "-" .. hex(tostring(v))
+    end
+    table.sort(out)
+    return "[" .. table.concat(out, ".") .. "]"
+end
+return p
+"""
+real_ctx = None
+real_lua_state = {"ok": True, "n": 0}
+
+
+def real_lua_view(args):
+    global real_ctx
+    if real_ctx is None:
+        luaexec.lua_loader = _loader
+        real_ctx = new_ctx({})
+        real_ctx.add_page("Module:argdump", real_ctx.NAMESPACE_DATA["Module"]["id"], ARGDUMP, model="Scribunto")
+    real_ctx.start_page("Tt")
+    with quiet_stdout():
+        out = real_ctx.expand("{{#invoke:argdump|dump|" + "|".join(args) + "}}")
+    if not (out.startswith("[") and out.endswith("]")):
+        raise RuntimeError("module did not run: " + out[:120])
+    d = {}
+    for item in filter(None, out[1:-1].split(".")):
+        k_, v_ = item[1:].split("-")
+        k_ = bytes.fromhex(k_).decode("utf-8")
+        d[int(k_) if item[0] == "n" else k_] = bytes.fromhex(v_).decode("utf-8")
+    real_lua_state["n"] += 1
+    return d
+
+
+def renumbered(args, clamp=False):
+    """make_frame's numbering (known finding): after an explicit numeric name k the positional counter jumps to k + 1"""
+    out, num = {}, 1
+    for a in args:
+        if "=" in a:
+            k, v = a.split("=", 1)
+            k = k.strip()
+            if k.isdecimal() and int(k) > 0:
+                k = int(k)
+                if clamp and k > 1000:
+                    k = 1000            # second known deviation: numeric names above 1000 are clamped (with a warning)
+                if num <= k:
+                    num = k + 1
+            else:
+                k = re.sub(r"\s+", " ", k)
+            out[k] = v.strip()
+        else:
+            out[num] = a
+            num += 1
+    return out
+
+
 def expander_view(args):
     seen = {}
 
@@ -196,6 +270,26 @@ for args in lists:
         wc = "known-deviation:positional-value-loses-one-trailing-newline" if nv == norm else "value"
         fail("c14:nested-expander-view#keys-and-values-as-stated" + ("" if wc == "value" else "[trailing-newline]"),
              f"the call written in a template body: template_fn sees {nv} want {want}", {"args": args, "body": "{{T|" + "|".join(args) + "}}"}, wc)
+    if real_lua_state["ok"] and all(ord(ch) < 128 for a in args for ch in a):
+        try:
+            rv = real_lua_view(args)
+        except Exception as ex:
+            real_lua_state["ok"] = False
+            fail("c14:real-lua-view#module-runs", f"{type(ex).__name__}: {ex}", {"args": args}, "harness")
+            rv = want
+        if rv != want:
+            def nl(d_):
+                return {k: (v.removesuffix("\n") if isinstance(v, str) and isinstance(k, int) else v) for k, v in d_.items()}
+            if rv == nl(want):
+                sfx, wc = "[trailing-newline]", "known-deviation:positional-value-loses-one-trailing-newline"
+            elif rv in (renumbered(args), nl(renumbered(args))):
+                sfx, wc = "[renumbered]", "known-deviation:positional-renumbered-after-numeric-name"
+            elif rv in (renumbered(args, True), nl(renumbered(args, True))):
+                sfx, wc = "[numeric-name-above-1000]", "known-deviation:numeric-name-above-1000-clamped"
+            else:
+                sfx, wc = "", "value"
+            fail("c14:real-lua-view#keys-and-values-as-stated" + sfx,
+                 f"frame.args inside the real sandbox: {rv} want {want}", {"args": args}, wc)
     for vn, got in views.items():
         if got != want:
             # narrow classes for documented deviations
@@ -256,5 +350,7 @@ emit({"evaluations": evaluations, "distinct_nontrivial": len(distinct),
       "rule": "distinct argument lists with distinct names and non-blank values; plus all strings of length <= L over a "
               "9-character alphabet for the two regex contracts",
       "failures": list(failures.values()), "samples": samples,
-      "bound": f"all argument lists of length <= {maxlen} over {len(ATOMS)} atoms, random lists to length 6; regex "
+      "bound": f"all argument lists of length <= {maxlen} over {len(ATOMS)} atoms, random lists to length 6; "
+               f"frame.args read by a module inside the real sandbox for the {real_lua_state['n']} ASCII lists (stand-in for the absent "
+               "ustring library); regex "
                f"contracts on {nchecked} strings (length <= {L}); Lua view via a stub lua_invoke on a bare LuaRuntime"})
